@@ -352,6 +352,45 @@ def rule_recipes(ctx):
     else:
         r.violation(k, f.loc, "the einsum equation does not list the left child's indices, then the right "
                     "child's, then the parent's: the executor passes the operands as (left, right)")
+    # (seed C01_1) the equation is re-lettered before it is handed to einsum: the renaming must be
+    # injective on the indices of the step, i.e. one map over *all* of them with counter-derived symbols
+    k = ctx.key(f, "C01-RECIPES", "eq-renaming")
+    tr = [n for n in walk_local(f.node) if isinstance(n, ast.Call) and isinstance(n.func, ast.Attribute)
+          and n.func.attr == "translate" and n.args]
+    if not tr:
+        r.exempt(k, f.loc, "the equation is not re-lettered (no translate call): nothing to decide")
+    else:
+        arg = tr[0].args[0]
+        if isinstance(arg, ast.Name):
+            la = ctx.r.local_assignments(f).get(arg.id) or []
+            arg = la[0] if len(la) == 1 else arg
+        probs = []
+        if not isinstance(arg, ast.DictComp):
+            probs.append(f"the translation table `{C.unparse(arg, 50)}` is not a single comprehension over the "
+                         f"step's indices (not decided)")
+            r.exempt(k, C.loc(f, tr[0]), probs[0])
+        else:
+            gens = arg.generators
+            it = C.unparse(gens[0].iter)
+            if any(g.ifs for g in gens):
+                cond = C.unparse(gens[0].ifs[0] if gens[0].ifs else [g for g in gens if g.ifs][0].ifs[0], 50)
+                probs.append(f"the table skips indices (`if {cond}`): an index that keeps its own label can "
+                             f"coincide with the symbol the counter assigns to another one, so two different "
+                             f"indices of the step share a letter (networks mixing ascii and extended labels, "
+                             f"contracted with einsum)")
+            if lr[0] not in it or lr[1] not in it:
+                probs.append("the table is not built over the indices of both operands")
+            cnt = None
+            if isinstance(gens[0].iter, ast.Call) and dotted(gens[0].iter.func) == "enumerate" and \
+                    isinstance(gens[0].target, ast.Tuple) and isinstance(gens[0].target.elts[0], ast.Name):
+                cnt = gens[0].target.elts[0].id
+            if cnt is None or cnt not in {n.id for n in ast.walk(arg.value) if isinstance(n, ast.Name)}:
+                probs.append("the new symbol is not derived from the position counter of the enumeration")
+            if probs:
+                r.violation(k, C.loc(f, arg), "; ".join(probs))
+            else:
+                r.ok(k, C.loc(f, arg), "one unfiltered map over all indices of both operands, symbols from the "
+                     "enumeration counter: injective")
     # get_tensordot_perm
     f = tc.lookup("get_tensordot_perm")
     C.require(f is not None, "get_tensordot_perm not found")
